@@ -18,7 +18,12 @@ RULE = ("one case = a history of create / hand-made recording / fill / save / re
         "shared-sub-object probe (F07c), file-path collision (hand-made ids, observation), asked-early (an id is asked for - "
         "full and metadata-only - before its recording is created / filled / saved and again after the save, through the "
         "saving cassette object or through a second object over the same directory / bucket + prefix that lives for the "
-        "whole history: 6 deterministic probes + a random stream); non-trivial = at least one "
+        "whole history: 6 deterministic probes + a random stream), long (deterministic probes per cassette kind: two recordings are "
+        "saved, then a run of 550 other recordings (`bulk`: create + save on the same cassette), the two are fetched, one is "
+        "saved again with new content and a third is saved, 560 more recordings follow, then all three, the first and the last "
+        "of the others and never-saved ids are fetched, full and metadata-only - 1100+ saves between a save and its fetch; the "
+        "number of stored names is compared after every call instead of the names; the 1100-recording S3 history runs without the "
+        "model in the quick tier, a 316-recording one with it); non-trivial = at least one "
         "successful save of a non-empty recording that is fetched afterwards; distinct = distinct case")
 ASSUMPTIONS = ["json.loads(json.dumps(j)) == j on the well-formed JSON trees jwf that the serializer produces (premise of the "
                "oracle-parametric theorems, restricted to jwf because no function satisfies it on all json terms; a THEOREM "
@@ -240,6 +245,42 @@ def fixed_early(kind, prefix, v):
     return dict(kind=kind, prefix=prefix, ops=ops, stream="early")
 
 
+def long_case(kind, prefix, n1, n2, model=True):
+    """a LONG history: recordings A (created), B (hand-made id) are saved, then n1 other recordings, A and B are fetched,
+    C is saved and B saved again with new content, then n2 more recordings; at the end A, B, C, the first and the last of
+    the others are fetched (full and metadata-only) and ids that were never saved are asked for"""
+    fmt = "%s/20200227/%032x" if kind == "s3" else "%s/%032x"
+    a, b, c = fmt % ("Op", 1), "Op/abc", fmt % ("OpX", n1 + 2)
+    fill_a = dict(op="fill", slot=0, reset=False, meta=[["m", pv.s("v")], ["duration", pv.i(2)]],
+                  data=[["k", pv.i(1)], ["input: x", pv.lst([pv.s("a"), pv.i(2), pv.dct([("n", pv.none())])])]])
+    fill_b = dict(op="fill", slot=1, reset=False, data=[["k2", pv.dct([("n", pv.i(3))])]], meta=[])
+    fill_c = dict(op="fill", slot=2, reset=False, data=[["k", pv.tup([pv.i(1), pv.s("\u00e9")])]], meta=[["m", pv.b(True)]])
+    refill_b = dict(op="fill", slot=1, reset=True, data=[["k", pv.i(7)]], meta=[["m", pv.s("w")]])
+    ops = [dict(op="create", slot=0, cat="Op"), fill_a, dict(op="save", slot=0),
+           dict(op="mk", slot=1, id=b), fill_b, dict(op="save", slot=1),
+           dict(op="bulk", n=n1, cat="Bk"),
+           dict(op="get", id=a), dict(op="get_meta", id=b),
+           dict(op="create", slot=2, cat="OpX"), fill_c, dict(op="save", slot=2),
+           refill_b, dict(op="save", slot=1),
+           dict(op="bulk", n=n2, cat="Bk"),
+           dict(op="get", id=a), dict(op="get_meta", id=a), dict(op="get", id=b), dict(op="get_meta", id=b),
+           dict(op="get", id=c), dict(op="get", id=bulk_id(kind, "Bk", 2)), dict(op="get_meta", id=bulk_id(kind, "Bk", n1 + 1)),
+           dict(op="get", id=bulk_id(kind, "Bk", n1 + n2 + 2)),
+           dict(op="get", id="Op/never-saved"), dict(op="get_meta", id=bulk_id(kind, "Bk", n1 + n2 + 3))]
+    return dict(kind=kind, prefix=prefix, ops=ops, stream="long", names="count", model=model)
+
+
+# runs of saves (n1, n2, with the model?) between the save of a recording and its fetch, per cassette kind and tier: "any
+# sequence of saves of other recordings before and after" has no bound; the probes pass 1024 stored recordings on every
+# cassette.  The models' stores are plain lists (the S3 bucket model pays ~n^2 comparisons of keys that share a 40 character
+# prefix: about a minute for 1100 recordings), so in the quick tier the longest S3 history is implementation + direct
+# predicate only and a shorter one runs against the model; the thorough tier runs the long one against the model too.
+LONG = {"quick": {"mem": [(550, 560, True)], "file": [(550, 560, True)], "s3": [(550, 560, False), (150, 160, True)]},
+        "thorough": {"mem": [(550, 560, True), (30, 2100, True), (4200, 10, False)],
+                     "file": [(550, 560, True), (1300, 40, False)],
+                     "s3": [(550, 560, True), (150, 160, True), (1300, 40, False)]}}
+
+
 def generate(rng, tier):
     n = 150 if tier == "quick" else 1500
     cases = []
@@ -280,6 +321,12 @@ def generate(rng, tier):
     rng_early = __import__("random").Random(rng.getrandbits(64))
     for i in range(36 if tier == "quick" else 360):
         cases.append(gen_case(rng_early, tier, "early", ["s3", "file", "s3", "mem"][i % 4]))
+    # long histories: 1000+ saves of other recordings between the save of a recording and its fetch (deterministic probes,
+    # spread over the case list so that they land in different shards of the model run)
+    longs = [long_case(k, ["", "p", "a/b"][j % 3], n1, n2, m) for k in kinds for j, (n1, n2, m) in enumerate(LONG[tier][k])]
+    step = max(1, len(cases) // (len(longs) + 1))
+    for j, c in enumerate(longs):
+        cases.insert(min(len(cases), (j + 1) * step + j), c)
     return cases
 
 
@@ -304,12 +351,28 @@ def walk(case, obs):
             for key, v in op["meta"]:
                 s["meta"] = [kv for kv in s["meta"] if kv[0] != key] + [[key, expand(v, pool)]]
             s["fill"] = op
+        elif k == "bulk" and o["res"] == "ok":
+            for i, rid in enumerate(bulk_ids(case, op, o)):
+                expected[rid] = dict(id=rid, data=[["k", pv.i(i)]], meta=[], pools=[])
         elif k == "scribble_saved" and op["slot"] in slots:
             slots[op["slot"]]["dirty"] = True
         elif k == "save" and op["slot"] in slots and o["res"] == "ok":
             s = slots[op["slot"]]
             expected[s["id"]] = copy.deepcopy(s)
         yield n, op, o, slots, expected
+
+
+def bulk_ids(case, op, o):
+    """ids of the recordings a bulk op created: the fake uuid counts, so they are known unless the driver says otherwise"""
+    if "ids" in o:
+        return o["ids"]
+    return [bulk_id(case["kind"], op["cat"], o["first"] + i) for i in range(o.get("n_ok", 0))]
+
+
+def bulk_id(kind, cat, n):
+    """id of the n-th recording of the history when it is created by a bulk op: the fake uuid text with the low digit first
+    (like uuid1, whose hex text starts with its fastest moving field; ids that differ early keep the model run cheap)"""
+    return ("%s/20200227/%s" if kind == "s3" else "%s/%s") % (cat, ("%032x" % n)[::-1])
 
 
 def unser_in(items):
@@ -336,6 +399,19 @@ def f07c_region(exp):
     return shared and any(list_in_state(v) for _, v in exp["data"] + exp["meta"])
 
 
+def saves_since(case, obs, rid, upto):
+    """how many saves of other recordings lie between the last save of `rid` and op #upto (for the message only)"""
+    count, slot_id = 0, {}
+    for n, (op, o) in enumerate(zip(case["ops"][:upto], obs["ops"])):
+        if op["op"] in ("create", "mk") and "id" in o:
+            slot_id[op["slot"]] = o["id"]
+        elif op["op"] == "save" and o["res"] == "ok":
+            count = 0 if slot_id.get(op["slot"]) == rid else count + 1
+        elif op["op"] == "bulk":
+            count += o.get("n_ok", 0)
+    return count
+
+
 def direct(case, obs):
     if "driver_exception" in obs:
         return [("driver", obs["driver_exception"])]
@@ -354,6 +430,9 @@ def direct(case, obs):
             bad = unser_in(s["data"]) or unser_in(s["meta"])
             if o["res"] != ("EncodeError" if bad else "ok"):
                 fails.append(("save-outcome", "%s: outcome %s (%s)" % (where, o["res"], o.get("msg"))))
+        if k == "bulk" and (o["res"] != "ok" or o.get("n_ok") != op["n"]):
+            fails.append(("save-outcome", "%s: a run of %d saves of small recordings ended with %s after %s saves (%s)" %
+                          (where, op["n"], o["res"], o.get("n_ok"), o.get("msg"))))
         if k not in ("get", "get_meta"):
             continue
         rid = op["id"]
@@ -377,7 +456,9 @@ def direct(case, obs):
                 return "F07c-shared-ref-after-object-state"
             return s
         if o["res"] != "ok":
-            fails.append((sig("saved-recording-not-fetchable"), "%s: id %r was saved, fetch raised %s" % (where, rid, o["res"])))
+            later = saves_since(case, obs, rid, n)
+            fails.append((sig("saved-recording-not-fetchable"), "%s: id %r was saved%s, fetch raised %s" % (
+                where, rid, " (%d saves of other recordings since)" % later if later > 20 else "", o["res"])))
             continue
         want_meta = pv.canon_json({"t": "dict", "v": exp["meta"]})
         if k == "get_meta":
@@ -429,17 +510,38 @@ def gitems(items):
     return glist([gpair(gstr(k), pv.to_pyval(v)) for k, v in items])
 
 
-def gnames(o):
-    return glist([gstr(x) for x in o["names"]])
+class Names(object):
+    """The stored names of a case are listed again after every call: each distinct text is bound once per case
+    (`let n3 := U "..." in`) and referred to by name (parsing string literals dominates the elaboration of a shard)."""
+    def __init__(self):
+        self.names = {}
+
+    def __call__(self, text):
+        if text not in self.names:
+            self.names[text] = "n%d" % len(self.names)
+        return self.names[text]
+
+    def wrap(self, term):
+        lets = "".join("let %s := %s in " % (n, gstr(k)) for k, n in self.names.items())
+        return "(%s%s)" % (lets, term) if lets else term
+
+
+def gnames(o, nm=gstr):
+    if "names_n" in o:
+        return "(NCount %d%%N)" % o["names_n"]
+    return "(NAll %s)" % glist([nm(x) for x in o["names"]])
 
 
 def to_gallina(case, obs):
     if "driver_exception" in obs:
-        return "Case KMem [(PNoop, BUnknown, [])]"
+        return "Case KMem [(PNoop, BUnknown, NAll [])]"
     if case.get("stream") == "shared":
         return None                       # sharing is not expressible in pyval (tree shaped)
+    if case.get("model") is False:
+        return None                       # (the longest histories of the quick tier: implementation + direct predicate only)
     kind = {"mem": "KMem", "file": "KFile", "s3": "(KS3 %s)" % gstr(case.get("prefix", ""))}[case["kind"]]
     terms = []
+    nm = Names()
     for n, op, o, slots, expected in walk(case, obs):
         k = op["op"]
         res = o["res"]
@@ -461,6 +563,9 @@ def to_gallina(case, obs):
                 return None
             t = "(PSave (Rec %s %s %s %s))" % (gstr(s["id"]), gbool(bool(o.get("closed_before"))), gitems(s["data"]),
                                               gitems(s["meta"]))
+        elif k == "bulk" and res == "ok":
+            t = "(PBulk %s)" % glist(["(Rec %s false %s [])" % (gstr(rid), gitems([["k", pv.i(i)]]))
+                                      for i, rid in enumerate(bulk_ids(case, op, o))])
         elif k == "get":
             t = "(PGet %s)" % gstr(op["id"])
             if res == "ok":
@@ -474,8 +579,8 @@ def to_gallina(case, obs):
                 if not coq_ok(o["val"]):
                     return None
                 ob = "(BVal %s)" % pv.to_pyval(o["val"])
-        terms.append("(%s, %s, %s)" % (t, ob, gnames(o)))
-    return "Case %s %s" % (kind, glist(terms))
+        terms.append("(%s, %s, %s)" % (t, ob, gnames(o, nm)))
+    return nm.wrap("Case %s %s" % (kind, glist(terms)))
 
 
 def explain(case, obs):
@@ -487,8 +592,11 @@ def features(case):
     if case["kind"] == "s3":
         f.add("s3-prefix:" + repr(case.get("prefix", "")))
     asked = set()
+    between = 0
     for op in case["ops"]:
         f.add("op:" + op["op"])
+        if op["op"] == "bulk":
+            between += op["n"]
         if op["op"] in ("get", "get_meta"):
             asked.add(op["id"])
             if op.get("via") == "reader":
@@ -510,6 +618,8 @@ def features(case):
             f.add("id:hand-made")
         if op["op"] == "create":
             f.add("id:created")
+    if between:
+        f.add("saves of other recordings between a save and its fetch: %s" % ("1000+" if between > 1000 else "100+"))
     return f
 
 
@@ -520,6 +630,12 @@ def nontrivial(case):
 
 def shrink_candidates(case):
     ops = case["ops"]
+    if case.get("stream") == "long":
+        # the ids of a long history are positional (fake uuid counter): only the fetches are dropped, nothing is renumbered
+        for i in range(len(ops) - 1, -1, -1):
+            if ops[i]["op"] in ("get", "get_meta"):
+                yield dict(case, ops=ops[:i] + ops[i + 1:])
+        return
     slots = sorted(set(o["slot"] for o in ops if "slot" in o))
     if len(slots) > 1:
         for sl in slots:      # drop a whole recording (its create / fill / save / scribble ops)
@@ -545,7 +661,7 @@ def search_harder(rng, bad_cases):
 
 MANIFEST = dict(
     design_ref='6/C07',
-    text="Coq theorems for the three cassette models (in-memory ordered id->text map, file-based directory with path id = replace('/','_') + '.json', S3 full+metadata objects over the bucket model): for ANY prior store state, after save r and any later saves of other ids, get returns r's id, key set, data and metadata up to canonical dict order, and the metadata-only fetch agrees, for all key texts and all values of the serializer's faithful domain (rec_wf) whose floats carry float.__repr__ texts and whose bytes are byte lists (rec_leaves_ok); file paths are injective on created ids (collision of hand-made ids refuted with a witness); a never-saved id answers NoSuchRecording on all three; on S3 the data key '_metadata' is lost (refuted with a witness, known finding F07b). Model tied to /repo on every run by histories of create/save/re-save/get/get_metadata (and client scribbles on handed-out objects; ids asked for before they are saved and afterwards, also through a second cassette object over the same store) on the real cassettes; direct predicate: fetched == saved, metadata-only fetch agrees, unknown id raises NoSuchRecording. Shared sub-objects are covered by the direct predicate only (pyval is tree shaped); one shape is a known finding (F07c).",
+    text="Coq theorems for the three cassette models (in-memory ordered id->text map, file-based directory with path id = replace('/','_') + '.json', S3 full+metadata objects over the bucket model): for ANY prior store state, after save r and any later saves of other ids, get returns r's id, key set, data and metadata up to canonical dict order, and the metadata-only fetch agrees, for all key texts and all values of the serializer's faithful domain (rec_wf) whose floats carry float.__repr__ texts and whose bytes are byte lists (rec_leaves_ok); file paths are injective on created ids (collision of hand-made ids refuted with a witness); a never-saved id answers NoSuchRecording on all three; on S3 the data key '_metadata' is lost (refuted with a witness, known finding F07b). Model tied to /repo on every run by histories of create/save/re-save/get/get_metadata (and client scribbles on handed-out objects; ids asked for before they are saved and afterwards, also through a second cassette object over the same store; long histories with 1100+ saves of other recordings between the save of a recording and its fetch) on the real cassettes; direct predicate: fetched == saved, metadata-only fetch agrees, unknown id raises NoSuchRecording. Shared sub-objects are covered by the direct predicate only (pyval is tree shaped); one shape is a known finding (F07c).",
     note='Trusted: Coq kernel + vm_compute; hand-written models of jsonpickle 0.9.3 (flatten/restore) and of the three cassettes; json.loads o json.dumps = id on well-formed trees, zlib and quopri round trips are premises of the oracle-parametric theorems and theorems for the concrete parser / simple quoted-printable codec / identity zlib (C07_roundtrip_*_concrete: no oracle premise); fake bucket; scratch directory. Known findings F07b (S3 reserved key) and F07c (py/id numbering after an object state) are reported as KNOWN-FINDING.',
     technique='Coq proof (serializer round trip + store algebra) + history correspondence by vm_compute + direct fetched==saved predicate',
 )
